@@ -806,3 +806,111 @@ Proof.
   unfold all_ok. induction hs as [|h t IH]; simpl; [reflexivity|].
   destruct (fails h); simpl; [discriminate|]. intros H. now rewrite IH.
 Qed.
+
+(* ------------------------------------------------------------------ *)
+(* the status setter                                                   *)
+(* ------------------------------------------------------------------ *)
+
+Lemma lstrip_keep {A} (m : A -> bool) c t : m c = false -> lstrip_set m (c :: t) = c :: t.
+Proof. intros H. simpl. now rewrite H. Qed.
+Lemma rstrip_keep {A} (m : A -> bool) pre z : m z = false -> rstrip_set m (pre ++ [z]) = pre ++ [z].
+Proof.
+  intros H. unfold rstrip_set. rewrite rev_app_distr. simpl. rewrite H. simpl.
+  now rewrite rev_involutive.
+Qed.
+
+Section Setter.
+Variable reason : Z -> option str.
+
+Lemma set_status_code c c' l : set_status reason (SCode c) = SOk c' l -> status_ok c' l.
+Proof.
+  unfold set_status. destruct (Z.leb 100 c && Z.leb c 999) eqn:E; [|discriminate].
+  intros H. assert (Hc : (100 <= c <= 999)%Z) by lia.
+  destruct (reason c) as [m|]; inversion H; subst; (split; [exact Hc|]).
+  - exists m. reflexivity.
+  - exists (lit "Unknown"). reflexivity.
+Qed.
+
+(* custom reason lines "NNN reason" (no surrounding blanks) *)
+Definition sline_guard (s : str) : Prop :=
+  exists n mid z, 100 <= n <= 999 /\ s = dec_str_of_nat n ++ 32%N :: mid ++ [z] /\ is_py_space z = false.
+
+Definition dec3_parse (n : nat) : bool :=
+  let d := dec_str_of_nat n in
+  forallb (fun c => negb (is_py_space c) && N.ltb c 128) d
+  && match py_int_dec d with Some z => Z.eqb z (Z.of_nat n) | None => false end.
+
+Lemma dec3_parse_all : forallb dec3_parse (seq 100 900) = true.
+Proof. vm_compute. reflexivity. Qed.
+
+Lemma take_while_app f a c t : forallb f a = true -> f c = false -> take_while f (a ++ c :: t) = a.
+Proof.
+  induction a as [|x a IH]; simpl; intros H Hc; [now rewrite Hc|].
+  apply andb_prop in H. destruct H as [Hx Ha]. rewrite Hx. f_equal. now apply IH.
+Qed.
+
+Lemma set_status_line s c l : sline_guard s -> set_status reason (SLine s) = SOk c l -> status_ok c l /\ l = s.
+Proof.
+  intros [n [mid [z [Hn [-> Hz]]]]].
+  pose proof dec3_parse_all as A. rewrite forallb_forall in A.
+  assert (Hin : In n (seq 100 900)) by (apply in_seq; lia). specialize (A n Hin).
+  unfold dec3_parse in A. apply andb_prop in A. destruct A as [Hd Hp].
+  pose proof (dec3 n Hn) as H3. unfold three_digits_of in H3.
+  set (d := dec_str_of_nat n) in *.
+  destruct d as [|a [|b [|e [|? ?]]]] eqn:Ed; try discriminate. clear H3.
+  unfold set_status.
+  assert (Hsp : contains_char N.eqb 32%N ((a :: b :: e :: nil) ++ 32%N :: mid ++ [z]) = true).
+  { unfold contains_char. rewrite existsb_app. simpl. now rewrite orb_true_r. }
+  rewrite Hsp. cbn [negb].
+  assert (Hstrip : strip_set is_py_space ((a :: b :: e :: nil) ++ 32%N :: mid ++ [z])
+                   = (a :: b :: e :: nil) ++ 32%N :: mid ++ [z]).
+  { unfold strip_set. cbn [forallb] in Hd.
+    apply andb_prop in Hd. destruct Hd as [Ha _]. apply andb_prop in Ha. destruct Ha as [Ha _].
+    apply negb_true_iff in Ha.
+    cbn [app]. rewrite (lstrip_keep _ _ _ Ha).
+    change (a :: b :: e :: 32%N :: mid ++ [z]) with ((a :: b :: e :: 32%N :: mid) ++ [z]).
+    now apply rstrip_keep. }
+  rewrite Hstrip.
+  assert (Htok : take_while (fun c => negb (is_py_space c)) ((a :: b :: e :: nil) ++ 32%N :: mid ++ [z]) = [a; b; e]).
+  { apply take_while_app; [|reflexivity].
+    apply forallb_forall. intros x Hx. rewrite forallb_forall in Hd. specialize (Hd x Hx).
+    apply andb_prop in Hd. tauto. }
+  rewrite Htok.
+  assert (Hascii : forallb (fun c => N.ltb c 128) [a; b; e] = true).
+  { apply forallb_forall. intros x Hx. rewrite forallb_forall in Hd. specialize (Hd x Hx).
+    apply andb_prop in Hd. tauto. }
+  rewrite Hascii. cbn [negb].
+  destruct (py_int_dec [a; b; e]) as [zv|]; [|discriminate].
+  apply Z.eqb_eq in Hp. subst zv.
+  replace (Z.leb 100 (Z.of_nat n) && Z.leb (Z.of_nat n) 999) with true by lia.
+  intros H. inversion H; subst. split; [|reflexivity].
+  split; [lia|]. exists (mid ++ [z]). rewrite Nat2Z.id. fold d. rewrite Ed. reflexivity.
+Qed.
+End Setter.
+
+(* the finding C03-status-line-shape: the setter stores '+404 plus' verbatim *)
+Lemma status_setter_shape_refuted :
+  exists reason a c l, set_status reason a = SOk c l /\ ~ status_line_wf l.
+Proof.
+  exists (fun _ => None), (SLine (lit "+404 plus")), 404%Z, (lit "+404 plus").
+  split; [vm_compute; reflexivity|].
+  intros [a [b [c [rest [H [Ha _]]]]]]. vm_compute in H. injection H as <- _ _ _ _. vm_compute in Ha. discriminate Ha.
+Qed.
+
+(* the stronger reading of "closed exactly once" (DESIGN C03: every iterable from which an
+   item was taken) does not hold: an iterable whose first item is a response object is
+   abandoned by _cast and never closed *)
+Lemma abandoned_iterable_not_closed :
+  exists env eh p, trace env eh p <> None /\
+    match trace env eh p with
+    | Some ev => count is_close ev = 0
+    | None => False
+    end
+    /\ exists id items ty, p_routing p = ROk [] (mkH [] (HRet (OIter id true items ty))) /\ items <> [].
+Proof.
+  exists (mkEnv false false false [] []), (fun _ => None),
+    (mkProg [] [] (ROk [] (mkH [] (HRet (OIter 1 true
+       [IYield (OHttp false (mkResp 200 (lit "200 OK") [] [] (OStr (lit "x")) [] None [] false))] []))))).
+  split; [vm_compute; discriminate|]. split; [vm_compute; reflexivity|].
+  eexists _, _, _. split; [reflexivity|discriminate].
+Qed.
